@@ -20,6 +20,8 @@ Binding demonstrated during development (VERIF_REPO=/tmp/wt-proc, see notes/proc
 exit status 1 treated as normal; signals without core dump treated as normal; `_task_id = pid`;
 `children.pop(pid)` -> `children[pid]` - each reported as VIOLATION by replay and trace validation.
 """
+import time
+
 from harness import framework
 from harness.proc_driver import replay_supervisor, gen_paths_fast, random_supervisor_trace, binding_selftest
 
@@ -35,20 +37,27 @@ def _nontrivial(extra, path):
 
 
 def run(ctx):
+    t0 = time.time()
     # 1. model checking of the specification
     ctx.mc("proc", "ForkSupervisor", "MC_ForkSupervisor.cfg",
            overrides=ctx.pick({}, {"Ns": "{0, 1, 2, 3, 4, 99}", "Cpus": "{1, 2, 3, 4}", "Budgets": "{0, 1, 2, 3, 4}",
                                    "MaxN": 4, "MaxPid": 6}),
            required_actions=ACTIONS)
+    ctx._phase("mc", t0)
+    t0 = time.time()
     # 2. spec -> code: all histories up to L
     L = ctx.pick(6, 8)
-    paths = gen_paths_fast(ctx, "proc", "Gen_ForkSupervisor", "Gen_ForkSupervisor.cfg", overrides={"L": L})
+    paths = gen_paths_fast(ctx, "proc", "Gen_ForkSupervisor", "Gen_ForkSupervisor.cfg", overrides=ctx.pick({"L": L}, {"L": L, "Budgets": "{0, 1, 2, 3}"}))
     ctx.replay(paths, replayer, nontrivial=_nontrivial)
     ctx.cov["exhaustive"] = True
-    sims = ctx.sim_paths("proc", "Gen_ForkSupervisor", "Gen_ForkSupervisor.cfg", num=ctx.pick(300, 5000), depth=30,
+    ctx._phase("s2c_paths", t0)
+    t0 = time.time()
+    sims = ctx.sim_paths("proc", "Gen_ForkSupervisor", "Gen_ForkSupervisor.cfg", num=ctx.pick(300, 3000), depth=30,
                          overrides={"L": 30, "Ns": "{0, 1, 2, 3, 4, 99}", "Cpus": "{1, 3, 4}", "Budgets": "{0, 1, 2, 3, 5, 8}",
                                     "Statuses": "{0, 1, 255, 1009, 1015, 2011}", "MaxN": 4, "MaxPid": 7})
     ctx.replay(sims, replayer, nontrivial=_nontrivial, label="s2c-sim")
+    ctx._phase("s2c_sim", t0)
+    t0 = time.time()
     # 3. code -> spec: recorded runs under random environments
     n = ctx.pick(300, 6000)
     maxn, maxpid = 6, 60
@@ -56,6 +65,8 @@ def run(ctx):
     traces = framework.pool_map(random_supervisor_trace, jobs)
     verdict = ctx.validate("proc", "Trace_ForkSupervisor", "Trace_ForkSupervisor.cfg", traces,
                            overrides={"MaxN": maxn, "MaxPid": maxpid})
+    ctx._phase("c2s", t0)
+    t0 = time.time()
     # non-vacuity of both bindings: a corrupted observation / dropped event / corrupted expectation must be noticed
     good = [t for t in traces if verdict[t["id"]] is None]
 
@@ -63,11 +74,13 @@ def run(ctx):
         o["pc"] = "wait" if o["pc"] != "wait" else "fork"
     binding_selftest(ctx, "Trace_ForkSupervisor", "Trace_ForkSupervisor.cfg", {"MaxN": maxn, "MaxPid": maxpid},
                      good, paths, replayer, corrupt)
+    ctx._phase("selftest", t0)
     ctx.cov["rule"] = ("paths: every history of fork answers (parent with fresh/reused pid, child) and wait reports "
                        "(live or foreign pid x status in {0, 1, signal 9}) up to length %d for num_processes in {0,1,2,3} "
-                       "(0 = 2 detected cpus) and max_restarts in {0,1,2}; seeded TLC simulation walks (4 workers, depth 30); "
+                       "(0 = 2 detected cpus) and max_restarts in %s; seeded TLC simulation walks (4 workers, depth 30); "
                        "random recorded environments (<= 6 workers, default budget 100 included); distinct = distinct "
-                       "(config, answer sequence); non-trivial = at least two answers including a wait report" % L)
+                       "(config, answer sequence); non-trivial = at least two answers including a wait report"
+                       % (L, ctx.pick("{0,1,2}", "{0,1,2,3}")))
 
 
 def replay(ctx, rec):
